@@ -78,6 +78,13 @@ Catalog == <<
       Plain(<<T("ps"), ST>>, << << <<"ps","1">> >> >>, <<
           Ord(Plain(<<T("term"), ST>>, << << <<"term","a">> >>, << <<"term","b">> >> >>, <<
               Glob(Rew(Plain(<<TT>>, << << <<"s1">> >>, << <<"s2","t">> >> >>, <<>>))) >>)) >>) >>],
+  [name |-> "iface", rules |-> <<                  \* rules protected by the built-in cant_delete default of ACLs (`interface...`)
+      Plain(<<T("interface"), ST>>, << << <<"interface","1">> >>, << <<"interface","2">> >> >>, <<
+          Plain(<<T("mtu")>>, << << <<"mtu">>, <<"mtu","9">> >> >>, <<>>),
+          Plain(<<T("shutdown")>>, << << <<"shutdown">> >> >>, <<>>) >>),
+      Plain(<<T("interfaces")>>, << << <<"interfaces">> >> >>, <<
+          Plain(<<T("unit"), ST>>, << << <<"unit","0">> >>, << <<"unit","1">> >> >>, <<>>) >>),
+      Plain(<<T("a"), ST>>, << << <<"a","1">> >> >>, <<>>) >>],
   [name |-> "rewrite-values", rules |-> <<         \* %rewrite lives inside a block (the block is what gets re-sent)
       Plain(<<T("rv"), ST>>, << << <<"rv","1">> >> >>, <<
           \* a re-sent block is governed by ONE %rewrite rule: rows of different rules are emitted in rule-text order, which an
